@@ -51,6 +51,7 @@ type c06Step struct {
 	CT    []Bs   `json:"ct"`
 	Body  string `json:"body"`
 	Entry int    `json:"entry"` // 0 BindValidRequest, 1 BindAndValidate, 2 the untyped handler
+	Accept []Bs  `json:"accept,omitempty"` // Accept header lines (none = absent)
 }
 
 type c06StepObs struct {
@@ -61,6 +62,7 @@ type c06StepObs struct {
 	Parse    *Bs    `json:"parse"`
 	Reparse  *Bs    `json:"reparse"`
 	FormSt   int    `json:"form_st,omitempty"` // formData operations: net/http's own verdict on the request as a form (0 = fine)
+	AccBad   bool   `json:"acc_bad,omitempty"` // see c06Obs.AccBad
 	Hist     c06Res `json:"hist"` // inside the history (for the handler: Status 0 = 200)
 	HistRan  bool   `json:"hist_ran"`
 	Fresh    c06Res `json:"fresh"` // the same request on a fresh Context
@@ -85,6 +87,9 @@ type c06In struct {
 	// the operation's parameter set: "" a body parameter | none (no parameter at all) | pqh (only path, query and header
 	// parameters, all optional but the path one) | form (an optional formData parameter)
 	Params string `json:"params,omitempty"`
+	// Accept header lines of the request (none = absent). Every operation produces application/json; the gate has to answer
+	// before (and whatever) the response format negotiation says
+	Accept []Bs `json:"accept,omitempty"`
 }
 
 type c06Res struct {
@@ -108,6 +113,9 @@ type c06Obs struct {
 	HRan      bool         `json:"h_ran"`
 	UPicked   *Bs          `json:"u_picked"`          // the consumer BindAndValidate left in route.Consumer
 	FormSt    int          `json:"form_st,omitempty"` // formData operations: net/http's own verdict on the request as a form
+	// oracle for the response format stage: middleware.NegotiateContentType, asked by the harness itself on a request of its own
+	// with the route's produces list, finds NO acceptable format for the request's Accept header (negotiation is C07's subject)
+	AccBad bool `json:"acc_bad,omitempty"`
 	Panic     string       `json:"panic,omitempty"`
 	RouteMiss bool         `json:"route_miss,omitempty"`
 	Steps     []c06StepObs `json:"steps,omitempty"` // hist
@@ -141,6 +149,37 @@ func (c06) Enumerate(tier string) []any {
 	// every pool type against every single-entry and wildcard list, three body signals
 	var out []any
 	out = append(out, c06EnumerateHist()...)
+	// what the request accepts in return x what it sends: every defect of the Content-Type (not admitted, unparsable, admitted
+	// without a consumer) and none, with and without a body, under Accept headers that can and cannot be satisfied, for every
+	// parameter set of the operation
+	for _, acc := range []string{"application/xml", "text/html, image/*", "application/json;q=0", "application/json", "*/*"} {
+		for _, ct := range []string{"application/json", "text/plain", "image/png", "a/", "text", ""} {
+			for _, b := range []string{"cl", "chunked", "none"} {
+				for _, l := range [][]Bs{{"application/json"}, {"application/*", "text/csv"}, {}} {
+					for _, params := range []string{"", "none", "pqh", "form"} {
+						in := c06In{Declared: l, Default: "application/json", Registered: []Bs{"application/json", "text/csv"}, Method: "POST", Body: b,
+							Params: params, Accept: []Bs{Bs(acc)}}
+						if ct != "" {
+							in.CT = []Bs{Bs(ct)}
+						}
+						out = append(out, in)
+					}
+				}
+			}
+		}
+	}
+	// ... and as neighbouring requests on one Context
+	for entry := 0; entry < 3; entry++ {
+		ops := []c06Op{{Method: "POST", Path: "/x", Declared: []Bs{"application/json"}}, {Method: "PUT", Path: "/x", Declared: []Bs{"text/plain"}, Params: "none"}}
+		for _, ct := range []string{"text/plain", "a/", "application/json"} {
+			out = append(out, c06In{Kind: "hist", Default: "application/json", Registered: []Bs{"application/json", "text/plain"}, Ops: ops, Steps: []c06Step{
+				{Op: 0, CT: []Bs{Bs(ct)}, Body: "cl", Entry: entry},
+				{Op: 0, CT: []Bs{Bs(ct)}, Body: "cl", Entry: entry, Accept: []Bs{"application/xml"}},
+				{Op: 1, CT: []Bs{Bs(ct)}, Body: "chunked", Entry: entry, Accept: []Bs{"application/xml"}},
+				{Op: 0, CT: []Bs{Bs(ct)}, Body: "none", Entry: entry, Accept: []Bs{"application/xml"}},
+				{Op: 0, CT: []Bs{Bs(ct)}, Body: "cl", Entry: entry, Accept: []Bs{"*/*"}}}})
+		}
+	}
 	lists := [][]Bs{{"application/json"}, {"text/plain"}, {"application/*"}, {"*/*"}, {"text/*", "application/json"}, {}}
 	for _, l := range lists {
 		for _, ct := range []string{"application/json", "text/plain", "application/xml", "image/png", "APPLICATION/JSON", "text/plain; charset=utf-8", "", "a/", "text",
@@ -630,6 +669,9 @@ func c06GenHist(r *rand.Rand) c06In {
 		}
 		st.CT = ct
 		st.Body = c06Delivery(r, []string{"cl", "cl", "cl", "chunked", "chunked", "cl0hdr", "chunked-empty", "none"}[r.Intn(8)])
+		if r.Intn(4) == 0 {
+			st.Accept = c06Accept(r)
+		}
 		in.Steps = append(in.Steps, st)
 	}
 	return in
@@ -656,6 +698,10 @@ func (c06) Gen(r0 *rand.Rand, tier string, i int) any {
 	if base := c06NearBase(in.Default); c06HasNear(in.Declared, Bs(base)) && r0.Intn(3) != 0 {
 		// against near-miss entries: mostly a request of the default type or of the near-miss type itself
 		in.CT = c06NearHeader(r0, in.Declared, base)
+	}
+	// one request in four also says what it accepts in return (drawn last: the other draws stay what they were)
+	if r0.Intn(4) == 0 {
+		in.Accept = c06Accept(r0)
 	}
 	return in
 }
@@ -952,7 +998,37 @@ func c06Request(in c06In) *http.Request {
 	if len(in.CT) > 0 {
 		req.Header["Content-Type"] = bsList(in.CT)
 	}
+	if len(in.Accept) > 0 {
+		req.Header["Accept"] = bsList(in.Accept)
+	}
 	return req
+}
+
+// c06AccBad: the response format oracle. The harness asks the negotiation function itself, on a request of its own, whether any
+// of the route's produces satisfies the request's Accept header (no produces = nothing to refuse).
+func c06AccBad(in c06In, produces []string) bool {
+	if len(in.Accept) == 0 || len(produces) == 0 {
+		return false
+	}
+	rq := httptest.NewRequest("GET", "/", nil)
+	rq.Header["Accept"] = bsList(in.Accept)
+	return middleware.NegotiateContentType(rq, produces, "") == ""
+}
+
+// Accept headers: ones application/json satisfies and ones it does not (two in three), one or several lines.
+var c06AcceptGood = []string{"application/json", "*/*", "application/*", "text/html, application/json;q=0.5", "application/json; charset=utf-8", "application/xml;q=0.9, */*;q=0.1", ""}
+var c06AcceptBad = []string{"application/xml", "text/html", "image/*", "text/plain;q=0.9, application/xml", "application/json;q=0", "application/jsonx", "text/*",
+	"application/vnd.api+json", "application/x-www-form-urlencoded", "multipart/form-data", "application/octet-stream", "text/plain", "text/csv"}
+
+func c06Accept(r *rand.Rand) []Bs {
+	if r.Intn(3) == 0 {
+		return []Bs{Bs(c06AcceptGood[r.Intn(len(c06AcceptGood))])}
+	}
+	a := []Bs{Bs(c06AcceptBad[r.Intn(len(c06AcceptBad))])}
+	if r.Intn(5) == 0 {
+		a = append(a, Bs(c06AcceptBad[r.Intn(len(c06AcceptBad))]))
+	}
+	return a
 }
 
 func c06FirstCode(err error) int {
@@ -1049,7 +1125,7 @@ func c06BuildHist(in c06In) *c06Built {
 // c06StepIn is the request of one step, as a single-request input.
 func c06StepIn(in c06In, st c06Step) c06In {
 	op := in.Ops[st.Op]
-	return c06In{Method: op.Method, Path: strings.ReplaceAll(op.Path, "{id}", "7"), CT: st.CT, Body: st.Body, Params: op.Params}
+	return c06In{Method: op.Method, Path: strings.ReplaceAll(op.Path, "{id}", "7"), CT: st.CT, Body: st.Body, Params: op.Params, Accept: st.Accept}
 }
 
 // c06Enter sends the request through one entry point of b: (first error status, consumer that ran, went through).
@@ -1125,6 +1201,7 @@ func c06RunHist(in c06In) any {
 				}
 			}
 			so.FormSt = c06FormStage(rq)
+			so.AccBad = c06AccBad(rq, mr.Produces)
 			so.Hist, so.HistRan = c06Enter(b, rq, st.Entry)
 			obs.Steps = append(obs.Steps, so)
 		}
@@ -1186,6 +1263,7 @@ func (c06) Run(inAny any) any {
 		}
 	}
 	obs.FormSt = c06FormStage(in)
+	obs.AccBad = c06AccBad(in, mr.Produces)
 	pp, pm := recoverTo(func() {
 		if ct, _, err := runtime.ContentType(c06Request(in).Header); err == nil {
 			p := Bs(ct)
@@ -1272,13 +1350,13 @@ func c06CoqHist(in c06In, obs c06Obs) string {
 	return head + coqList(idx, func(i int) string {
 		st, so := in.Steps[i], obs.Steps[i]
 		clPos, hdr, nonempty := c06BodyFlags(st.Body)
-		return fmt.Sprintf("(HStep %s %s %s %s %s %s %s %s %s %s %s %d %d %s %s %s %s %s %s %s)",
+		return fmt.Sprintf("(HStep %s %s %s %s %s %s %s %s %s %s %s %d %d %s %s %s %s %s %s %s %s)",
 			coqBytesList(bsList(in.Ops[st.Op].Declared)), coqBytesList(bsList(so.Consumes)), coqBytesList(bsList(so.Keys)),
 			coqBool(clPos), coqBool(hdr), coqBool(nonempty), coqBool(so.HasBody),
 			coqBytesList(bsList(st.CT)), coqBytes(string(so.Asked)), c06OptBytes(so.Parse), c06OptBytes(so.Reparse), st.Entry,
 			c06Kind(in.Ops[st.Op].Params), c06OptStatus(so.FormSt),
 			c06OptStatus(so.Hist.Status), c06OptBytes(so.Hist.Cons), coqBool(so.HistRan),
-			c06OptStatus(so.Fresh.Status), c06OptBytes(so.Fresh.Cons), coqBool(so.FreshRan))
+			c06OptStatus(so.Fresh.Status), c06OptBytes(so.Fresh.Cons), coqBool(so.FreshRan), coqBool(!so.AccBad))
 	})
 }
 
@@ -1288,10 +1366,10 @@ func (c06) Coq(inAny any, obsAny any) string {
 		return c06CoqHist(in, obs)
 	}
 	if obs.RouteMiss {
-		return "CGate [] [] [] [] [] false false false true [] [] None None None None None None None 0 None false 0 None None"
+		return "CGate [] [] [] [] [] false false false true [] [] None None None None None None None 0 None false 0 None None true"
 	}
 	clPos, hdr, nonempty := c06BodyFlags(in.Body)
-	return fmt.Sprintf("CGate %s %s %s %s %s %s %s %s %s %s %s %s %s %s %s %s %s %s %d %s %s %d %s %s",
+	return fmt.Sprintf("CGate %s %s %s %s %s %s %s %s %s %s %s %s %s %s %s %s %s %s %d %s %s %d %s %s %s",
 		coqBytesList(bsList(in.Declared)), coqBytes(string(in.Default)), coqBytesList(c06APIConsumers(in)),
 		coqBytesList(bsList(obs.Consumes)), coqBytesList(bsList(obs.Keys)),
 		coqBool(clPos), coqBool(hdr), coqBool(nonempty), coqBool(obs.HasBody),
@@ -1299,7 +1377,7 @@ func (c06) Coq(inAny any, obsAny any) string {
 		c06OptBytes(obs.Parse), c06OptBytes(obs.Reparse), c06OptBytes(obs.CTImpl),
 		c06OptStatus(obs.T.Status), c06OptBytes(obs.T.Cons), c06OptStatus(obs.U.Status), c06OptBytes(obs.U.Cons),
 		obs.HStatus, c06OptBytes(obs.HCons), coqBool(obs.HRan),
-		c06Kind(in.Params), c06OptStatus(obs.FormSt), c06OptBytes(obs.UPicked))
+		c06Kind(in.Params), c06OptStatus(obs.FormSt), c06OptBytes(obs.UPicked), coqBool(!obs.AccBad))
 }
 
 func c06Kind(params string) int {
@@ -1435,6 +1513,13 @@ func (c06) Category(inAny any, obsAny any) (string, bool) {
 		if v := strings.ToLower(string(l)); strings.Contains(v, "charset=") && !strings.Contains(v, "charset=utf-8") && !strings.Contains(v, "charset=\"utf-8\"") {
 			hdr += "+other-charset"
 			break
+		}
+	}
+	if len(in.Accept) > 0 {
+		if obs.AccBad {
+			hdr += "+accept-unsatisfiable"
+		} else {
+			hdr += "+accept-ok"
 		}
 	}
 	cat := fmt.Sprintf("%s/%s/%s/%s/%d", in.Method, sig, hdr, lst, obs.HStatus)
